@@ -34,8 +34,10 @@ pub const FEAT: &str = "eio-async";
 pub const FEAT: &str = "default";
 
 thread_local! { static LAST_DIGEST: std::cell::Cell<u64> = std::cell::Cell::new(0); }
+thread_local! { static LAST_DIGEST2: std::cell::Cell<u64> = std::cell::Cell::new(0); }
 pub fn set_digest(d: u64) {
     LAST_DIGEST.with(|c| c.set(d));
+    LAST_DIGEST2.with(|c| c.set(0));
 }
 
 fn mk_sub(n: u64, scn: &str) -> Option<Box<dyn drv::Sub>> {
@@ -90,6 +92,7 @@ fn run_tracked(n: u64, scn: &str, steps: &[Value]) -> Option<String> {
         dig = dig.rotate_left(17) ^ d.1.digest();
     }
     set_digest(dig);
+    LAST_DIGEST2.with(|c| c.set(drivers[0].1.digest2()));
     Some(out)
 }
 
@@ -170,7 +173,7 @@ fn main() {
         };
         match text {
             Some(t) => {
-                digs.push_str(&format!("{} {:016x}\n", scn, LAST_DIGEST.with(|c| c.get())));
+                digs.push_str(&format!("{} {:016x} {:016x}\n", scn, LAST_DIGEST.with(|c| c.get()), LAST_DIGEST2.with(|c| c.get())));
                 out.write_all(t.as_bytes()).expect("write trace");
                 nscn += 1;
             }
